@@ -30,6 +30,27 @@ CHECKS = {
         note="Chunk invariance is judged only when both deliveries produced bit-identical utility streams (a BLAS kernel evaluated on a batch vs. on single rows may differ in the last bit; then the managers saw different inputs). Float state compared to 1e-12 relative.",
         design="4/C10",
     ),
+    "C14": dict(
+        engine="poolsim",
+        technique=TECH + "whole active-learning histories (initial labelling x batch size x scheduled oracle answers) on one long-lived strategy object, invariant monitor per cycle, line-count fuel for termination",
+        text="Every exported single-annotator pool strategy (and documented variant, with default and alternative models) is driven through the complete standard loop on small pools with ties, duplicates, constant and collinear features, from zero labels to a single unlabeled sample, with oracles that answer truthfully, constantly, with one class for a long prefix, or randomly. After every query: returned within a deterministic step budget, no exception, only unlabeled samples, pairwise distinct, exactly min(batch_size, remaining) many; pool exhausted after ceil(u/batch_size) queries. No infrastructure fault exists in a synchronous loop; the searched space is histories.",
+        note="Trusted: the oracle/driver, numpy, scikit-learn estimators used as models. Wrappers are not subjects (documented different counts). Genuine defects found here were repaired (see known_findings.json); the capacity-blind leaf allocation of RegressionTreeBasedAL is recorded as a known finding.",
+        design="4/C14",
+    ),
+    "C05": dict(
+        engine="poolsim",
+        technique=TECH + "operation sequences on long-lived strategy/model/array objects with a frame monitor (arrays, get_params by value, model fingerprint, clone, pickle) after every call",
+        text="One strategy object, one set of model objects and the caller's arrays live through a seeded sequence of queries: with and without labelling in between, with fit_* on and off (caller-fitted model), with sample_weight / utility_weight / index and feature-row candidates where supported, on a second data set of other size and scale, and with every lazily resolved default left unset. After every call (also a call that raised) the monitor compares all arrays byte-wise, get_params(deep=True) by value with the construction-time snapshot, a structural fingerprint of the model argument, and re-checks sklearn.clone and pickle.",
+        note="The position of a model's own tie-break generator is excluded from the fingerprint (predict is specified to draw from it). Exceptions are outside the property and only counted.",
+        design="4/C05",
+    ),
+    "C06": dict(
+        engine="poolsim",
+        technique=TECH + "interference schedules of a foreign actor on numpy's process-global generator (before and, via a transparent model proxy, during library calls); twin-world comparison",
+        text="Each scenario (pool loop, stream history or estimator fit/predict life cycle, all with fixed integer or RandomState seeds) is executed in two worlds that differ only in when and how a simulated foreign actor re-seeds or draws from numpy's global generator, including in the middle of a query at each fit/predict call-back of the caller's model. All observables must be identical in both worlds, and the same pool query repeated on one object must return the same result. Consumption of the global generator is only a probe steering the search, never a verdict.",
+        note="Every caller-supplied estimator has an integer seed, so remaining global-generator dependence originates in the library or in helpers it constructs. Two fresh twins per run; the proxy is a dynamic subclass that only adds the actor's draw.",
+        design="4/C06",
+    ),
 }
 
 NOT_APPLICABLE = {
